@@ -148,6 +148,12 @@ svx_read_header	(SF_PRIVATE *psf)
 	while (! done)
 	{	psf_binheader_readf (psf, "Em4", &marker, &chunk_size) ;
 
+		if (marker == 0)
+		{	/* Nothing could be read (end of file, I/O error) : resynching would never end. */
+			psf_log_printf (psf, "Have 0 marker at position %D. Exiting parser.\n", psf_ftell (psf)) ;
+			break ;
+			} ;
+
 		switch (marker)
 		{	case FORM_MARKER :
 					if (parsestage)
